@@ -18,51 +18,66 @@ From Verif.Driver Require Import C10drv.
 Import ListNotations.
 Local Open Scope Z_scope.
 
+(* Every theorem is for EVERY action sequence and EVERY clock granularity tk >= 0: tk is how far
+   the clock moves on each clock read made by the collector's own goroutine, i.e. between
+   `expiryTime = Now()+ttl` and the arming of the timer inside addTemplate (the real clock moves,
+   a test clock does not). run / grun / last_accept are the tk = 0 instances. *)
+
 (* the invariant (Ttl_lemmas.Inv: in-flight callbacks captured a time <= now; every stored template's
-   timer is armed at its expiry or unarmed-with-an-expired-deadline and a callback in flight that
-   will find it expired; armed timers belong to stored templates; the ghost ties expiry to the
-   last acceptance) holds after every action sequence *)
-Theorem C10_ttl : forall ttl acts, Inv ttl (run ttl acts).
-Proof. exact run_inv. Qed.
+   timer is armed not before and at most tk after its expiry, or unarmed-with-an-expired-deadline
+   and a callback in flight that will find it expired; armed timers belong to stored templates; the
+   ghost ties expiry to the last acceptance) holds after every action sequence *)
+Theorem C10_ttl : forall ttl tk acts, 0 <= tk -> Inv ttl (run_tick ttl tk acts).
+Proof. exact run_tick_inv. Qed.
 Print Assumptions C10_ttl.
 
 (* P1 - no early drop: before t0 + ttl the template accepted at t0 is stored, with that expiry,
    and a data set for k is decoded *)
-Theorem C10_no_early_drop : forall ttl acts k t0,
-  last_accept acts k = Some t0 -> g_now (grun acts) < t0 + ttl ->
-  exists p, get_tpl k (run ttl acts) = Some p /\ t_expiry p = t0 + ttl /\
-            probe (run ttl acts) k = Some (nrec (t_tag p)).
+Theorem C10_no_early_drop : forall ttl tk acts k t0, 0 <= tk ->
+  last_accept_tick tk acts k = Some t0 -> g_now (grun_tick tk acts) < t0 + ttl ->
+  exists p, get_tpl k (run_tick ttl tk acts) = Some p /\ t_expiry p = t0 + ttl /\
+            probe (run_tick ttl tk acts) k = Some (nrec (t_tag p)).
 Proof. exact no_early_drop_lemma. Qed.
 Print Assumptions C10_no_early_drop.
 
 (* whatever is stored is the last accepted template with the expiry that acceptance gave it *)
-Theorem C10_stored_is_last_accept : forall ttl acts k p,
-  get_tpl k (run ttl acts) = Some p ->
-  exists t0, last_accept acts k = Some t0 /\ t_expiry p = t0 + ttl /\ t0 <= g_now (grun acts).
+Theorem C10_stored_is_last_accept : forall ttl tk acts k p, 0 <= tk ->
+  get_tpl k (run_tick ttl tk acts) = Some p ->
+  exists t0, last_accept_tick tk acts k = Some t0 /\ t_expiry p = t0 + ttl /\ t0 <= g_now (grun_tick tk acts).
 Proof. exact stored_is_last_accept_lemma. Qed.
 Print Assumptions C10_stored_is_last_accept.
 
-(* P2 - discarded: once t0 + ttl <= now and neither a due/armed-in-the-past timer nor a callback
-   in flight remains, k is gone; a key never accepted or invalidated since is gone at once *)
-Theorem C10_discarded : forall ttl acts k, quiescent (run ttl acts) ->
-  match last_accept acts k with
-  | Some t0 => t0 + ttl <= g_now (grun acts) -> get_tpl k (run ttl acts) = None
+(* P2 - discarded: once t0 + ttl (+ tk) <= now and neither a due timer nor a callback in flight
+   remains, k is gone; a key never accepted or invalidated since is gone at once *)
+Theorem C10_discarded : forall ttl tk acts k, 0 <= tk -> quiescent (run_tick ttl tk acts) ->
+  match last_accept_tick tk acts k with
+  | Some t0 => t0 + ttl + tk <= g_now (grun_tick tk acts) -> get_tpl k (run_tick ttl tk acts) = None
   | None => True
   end.
 Proof. exact discarded_lemma. Qed.
 Print Assumptions C10_discarded.
 
-Theorem C10_invalidated_gone : forall ttl acts k,
-  last_accept acts k = None -> get_tpl k (run ttl acts) = None /\ probe (run ttl acts) k = None.
+Theorem C10_discarded_exact : forall ttl acts k, quiescent (run ttl acts) ->
+  match last_accept acts k with
+  | Some t0 => t0 + ttl <= g_now (grun acts) -> get_tpl k (run ttl acts) = None
+  | None => True
+  end.
+Proof. exact discarded_exact_lemma. Qed.
+Print Assumptions C10_discarded_exact.
+
+Theorem C10_invalidated_gone : forall ttl tk acts k, 0 <= tk ->
+  last_accept_tick tk acts k = None ->
+  get_tpl k (run_tick ttl tk acts) = None /\ probe (run_tick ttl tk acts) k = None.
 Proof. exact never_accepted_gone_lemma. Qed.
 Print Assumptions C10_invalidated_gone.
 
-(* P3 - every stored template has an expiry pending (its timer armed with deadline = expiry, or
-   unarmed with a callback of that timer in flight); at most one armed timer per key; a timer that
-   is not the timer of a stored template (removed templates) is not armed *)
-Theorem C10_timers : forall ttl acts, let s := run ttl acts in
+(* P3 - every stored template has an expiry pending (its timer armed with a deadline in
+   [expiry, expiry + tk], or unarmed with a callback of that timer in flight); at most one armed
+   timer per key; a timer that is not the timer of a stored template (removed templates) is not
+   armed *)
+Theorem C10_timers : forall ttl tk acts, 0 <= tk -> let s := run_tick ttl tk acts in
   (forall k p, get_tpl k s = Some p ->
-     armed_of (t_timer p) s = Some (t_expiry p) \/
+     (exists d, armed_of (t_timer p) s = Some d /\ t_expiry p <= d <= t_expiry p + tk) \/
      (armed_of (t_timer p) s = None /\ exists c, In c (inflight s) /\ c_timer c = t_timer p)) /\
   (forall t1 t2 tm1 tm2 d1 d2, get_timer t1 s = Some tm1 -> get_timer t2 s = Some tm2 ->
      tm_armed tm1 = Some d1 -> tm_armed tm2 = Some d2 -> tm_key tm1 = tm_key tm2 -> t1 = t2) /\
@@ -70,11 +85,22 @@ Theorem C10_timers : forall ttl acts, let s := run ttl acts in
 Proof. exact timers_lemma. Qed.
 Print Assumptions C10_timers.
 
+(* ... with deadline = expiry exactly for a clock that stands still inside addTemplate *)
+Theorem C10_timers_exact : forall ttl acts, let s := run ttl acts in
+  (forall k p, get_tpl k s = Some p ->
+     armed_of (t_timer p) s = Some (t_expiry p) \/
+     (armed_of (t_timer p) s = None /\ exists c, In c (inflight s) /\ c_timer c = t_timer p)) /\
+  (forall t1 t2 tm1 tm2 d1 d2, get_timer t1 s = Some tm1 -> get_timer t2 s = Some tm2 ->
+     tm_armed tm1 = Some d1 -> tm_armed tm2 = Some d2 -> tm_key tm1 = tm_key tm2 -> t1 = t2) /\
+  (forall t d, armed_of t s = Some d -> exists k p, get_tpl k s = Some p /\ t_timer p = t).
+Proof. exact timers_exact_lemma. Qed.
+Print Assumptions C10_timers_exact.
+
 (* the per-trace boolean oracle (check_trace, applied by Driver/C10drv.C10_holds_on to the
    implementation's observation after every action) is true on the model's trace of every
    action sequence *)
-Theorem C10_oracle_holds : forall ttl acts,
-  check_trace ttl ginit acts (trace ttl init acts) = true.
+Theorem C10_oracle_holds : forall ttl tk acts, 0 <= tk ->
+  check_trace ttl tk ginit acts (trace ttl (init_tick tk) acts) = true.
 Proof. exact oracle_holds. Qed.
 Print Assumptions C10_oracle_holds.
 
@@ -122,5 +148,14 @@ Proof. vm_compute. repeat split; reflexivity. Qed.
 (* the driver's oracle accepts the model's own rendering of a trace (parser/printer sanity) *)
 Example C10_oracle_roundtrip :
   let obs := tokens (show_trace (trace T init ex_stale_delete)) in
-  C10_holds_on T ex_stale_delete obs = true.
+  C10_holds_on T 0 ex_stale_delete obs = true.
 Proof. vm_compute. reflexivity. Qed.
+
+(* with a moving clock (tk = 1) the timer is armed one tick after the expiry it enforces, the
+   callback still finds the template expired, and the hypotheses of P2 are satisfiable *)
+Example C10_nonvacuous_tick :
+  armed_of 0 (run_tick T 1 [ATemplate k0 0]) = Some (T + 1) /\
+  get_tpl k0 (run_tick T 1 [ATemplate k0 0]) = Some (mkTpl 0 T 0) /\
+  last_accept_tick 1 ex_expire k0 = Some 0 /\ 0 + T + 1 <= g_now (grun_tick 1 ex_expire) /\
+  inflight (run_tick T 1 ex_expire) = [] /\ get_tpl k0 (run_tick T 1 ex_expire) = None.
+Proof. vm_compute. repeat split; try reflexivity. discriminate. Qed.
